@@ -6,7 +6,7 @@
 
 use std::{error::Error, fmt, str::FromStr};
 
-use onig::{Regex, RegexOptions, Syntax, SyntaxOperator};
+use onig::{MatchParam, Regex, RegexOptions, SearchOptions, Syntax, SyntaxOperator};
 
 use super::{Matcher, MatcherIO, WalkEntry};
 
@@ -121,8 +121,23 @@ impl RegexMatcher {
 
 impl Matcher for RegexMatcher {
     fn matches(&self, file_info: &WalkEntry, _: &mut MatcherIO) -> bool {
-        self.regex
-            .is_match(file_info.path().to_string_lossy().as_ref())
+        // Regex::is_match() panics when the engine gives up after its default
+        // number of backtracking steps, which nested repetitions reach on quite
+        // short paths.  Allow as many steps as can be asked for, and take a search
+        // that is abandoned even so for "no match" rather than abort the walk.
+        let path = file_info.path().to_string_lossy();
+        let mut param = MatchParam::default();
+        param.set_retry_limit_in_match(u32::MAX);
+        matches!(
+            self.regex.match_with_param(
+                path.as_ref(),
+                0,
+                SearchOptions::SEARCH_OPTION_NONE,
+                None,
+                param
+            ),
+            Ok(Some(len)) if len == path.len()
+        )
     }
 }
 
